@@ -538,12 +538,29 @@ Section Transform.
     eapply eq_trans; [apply (bind_ok _ _ _ Eg)|]. reflexivity.
   Qed.
 
+  (* no name of such a forest is a lorem header: the lorem pass leaves it alone *)
+  Lemma inode_lorem_free : forall n, inode P Pv n = true -> LoremFill.lorem_free n = true.
+  Proof.
+    induction n as [nm v rp at_ ch sc IH] using anode_ind'. intros Hs.
+    destruct (inode_inv P Pv _ Hs) as [av [_ [Hn [_ [_ Hch]]]]]. cbn [an_name an_children] in *.
+    rewrite LoremFill.lorem_free_eq.
+    assert (Hh : lorem_header nm = LNo).
+    { destruct nm as [x|]; [|reflexivity]. cbn [nv_ok] in Hn. destruct (HP x Hn) as [Hne Hl].
+      destruct x as [|c x]; [contradiction|]. unfold lorem_header, not_lorem in *.
+      destruct (match_lorem (c :: x)); [reflexivity|discriminate]. }
+    rewrite Hh. cbn [andb]. clear Hs Hn Hh. induction IH as [|k ks Hk _ IHks]; [reflexivity|].
+    cbn [forallb] in *. apply andb_prop in Hch. destruct Hch as [H1 H2]. rewrite (Hk H1), (IHks H2). reflexivity.
+  Qed.
+
   Lemma transform_list_inode :
     forall l, forallb (inode P Pv) l = true -> transform_list cfg l = Ok (map (rnode cfg None) l).
   Proof.
-    induction l as [|c l IH]; intros H; [reflexivity|].
+    intros l H. rewrite LoremFill.transform_list_free.
+    2:{ clear - H HP. induction l as [|c l IH]; [reflexivity|]. cbn [forallb] in *. apply andb_prop in H.
+        destruct H as [H1 H2]. rewrite (inode_lorem_free c H1), (IH H2). reflexivity. }
+    revert H. induction l as [|c l IH]; intros H; [reflexivity|].
     cbn [forallb] in H. apply andb_prop in H. destruct H as [H1 H2].
-    cbn [transform_list map]. destruct (transform_tree_inode c H1 None true false []) as [pd [path E]].
+    cbn [transform_forest map]. destruct (transform_tree_inode c H1 None true false []) as [pd [path E]].
     rewrite E. cbn [bind]. rewrite (IH H2). reflexivity.
   Qed.
 End Transform.
